@@ -24,9 +24,10 @@ def PadOK (mode : Mode) (n padL padR : Nat) : Prop :=
   | .order1 => 2 ≤ n
 
 /-- `(n, m, off)` is an admissible resize of one axis from length `n` to length `m`:
-the block fits, and if the axis grows the padding lengths respect the mode's limit. -/
+on a resized axis the block fits (on an axis of unchanged length the offset is ignored), and
+if the axis grows the padding lengths respect the mode's limit. -/
 def Admissible (mode : Mode) (n m off : Nat) : Prop :=
-  off + min n m ≤ max n m ∧ (n < m → PadOK mode n off (m - n - off))
+  (n ≠ m → off + min n m ≤ max n m) ∧ (n < m → PadOK mode n off (m - n - off))
 
 /-- NumPy's padding (`constant`, `wrap`, `reflect`, `edge`) and, for `order1`, linear
 extrapolation — the reference the property names. -/
@@ -55,7 +56,7 @@ variable {K : Type} [CommRing K] [DecidableEq K]
 omit [DecidableEq K] in
 theorem admissible_fits {mode : Mode} {n m off : Nat} (h : Admissible mode n m off)
     (hnm : n < m) : off + n ≤ m := by
-  have := h.1; omega
+  have := h.1 (by omega); omega
 
 /-- A successful call returns `resizeCore`. -/
 theorem ok_iff (mode : Mode) (dir : Dir) (n m off : Nat) (c : K) (x r : Nat → K) :
@@ -98,8 +99,12 @@ theorem core_transpose (mode : Mode) (n m off : Nat) (h : Admissible mode n m of
     · exact periodic_transpose n m off x y hnm hoff hp.1 hp.2
     · exact order0_transpose n m off x y hnm hoff hp
     · exact order1_transpose n m off x y hnm hoff hp
-  · have := h.1
-    exact crop_transpose mode n m off x y (by omega) (by omega)
+  · by_cases hmn : m < n
+    · have := h.1 (by omega)
+      exact crop_transpose mode n m off x y (by omega) (by omega)
+    · have e : n = m := by omega
+      subst e
+      exact same_transpose mode n off x y
 
 omit [DecidableEq K] in
 theorem admND_lengths {mode : Mode} : ∀ {sIn sOut offs : List Nat},
@@ -168,5 +173,20 @@ theorem linExtrap_right (n off k : Nat) (x : Nat → K) (hn : 2 ≤ n) (hk : off
     · have e1 : k - off = n - 1 := by omega
       have e2 : ((k : Int) - (off + n - 1)) = 0 := by omega
       rw [e1, e2]; simp
+omit [CommRing K] [DecidableEq K] in
+/-- admissible axes have offsets in range -/
+theorem offsetsBad_false_of_adm {mode : Mode} : ∀ {sIn sOut offs : List Nat},
+    AdmissibleND mode sIn sOut offs → offsetsBad sIn sOut offs = false
+  | [], [], [], _ => rfl
+  | n :: _, m :: _, off :: _, h => by
+    have h1 := h.1.1
+    have := offsetsBad_false_of_adm h.2
+    simp only [offsetsBad, this, Bool.or_false, decide_eq_false_iff_not]
+    intro hh; have := h1 hh.1; omega
+  | [], [], _ :: _, h => by simp [AdmissibleND] at h
+  | [], _ :: _, _, h => by simp [AdmissibleND] at h
+  | _ :: _, [], _, h => by simp [AdmissibleND] at h
+  | _ :: _, _ :: _, [], h => by simp [AdmissibleND] at h
+
 end
 end OdlModel.C16
